@@ -259,7 +259,7 @@ func (x *G) flow(depth int, inForm bool) []*Node {
 		case k == 4:
 			out = append(out, x.wsText())
 		case k == 5 && !x.guard("noRawInFlow"):
-			out = append(out, x.raw())
+			out = append(out, x.raw(true))
 		default:
 			tag := x.pick("btag", blockTags)
 			if tag == "form" && inForm {
@@ -271,9 +271,10 @@ func (x *G) flow(depth int, inForm bool) []*Node {
 	return out
 }
 
-func (x *G) raw() *Node {
-	// known finding C03-space-around-unrendered: style (block trait) between words loses both spaces
-	if x.chance("style", 2) && !x.guard("noStyleBetweenWords") {
+func (x *G) raw(inFlow bool) *Node {
+	// known finding C03-space-around-unrendered: style (block trait) between words loses both spaces; in the head
+	// there are no words around it
+	if x.chance("style", 2) && !(inFlow && x.guard("noStyleBetweenWords")) {
 		x.Feats["style"]++
 		css := "a{color:red}"
 		if x.Style != nil {
@@ -494,7 +495,7 @@ func (x *G) Gen() Doc {
 		head = append(head, &Node{Tag: tag, Attrs: x.attrs(tag)})
 	}
 	if x.chance("headstyle", 3) {
-		head = append(head, x.raw())
+		head = append(head, x.raw(false))
 	}
 	htmlAttrs := [][2]string(nil)
 	if x.chance("htmllang", 3) {
